@@ -637,7 +637,9 @@ def c18(ctx):
     pick = lambda c, m: zlib.crc32(json.dumps(c, sort_keys=True).encode()) % m == 0
     fams = []
     cp, st = family_gen(ctx, "Spl")
-    lines = [l for l in open(cp).read().splitlines() if (lambda c: c["op"] in ("SplEval", "SplUn", "SplBin") and same_grid(c) and pick(c, 40 if quick else 8))(json.loads(l))]
+    # incl. pairs on equal grids held in distinct shared instances (share = 0)
+    lines = [l for l in open(cp).read().splitlines()
+             if (lambda c: c["op"] in ("SplEval", "SplUn", "SplBin") and same_grid(c) and (pick(c, 40 if quick else 8) or (c.get("share") == 0 and pick(c, 4 if quick else 2))))(json.loads(l))]
     fams.append(("Spl", cp, lines))
     cp, st = family_gen(ctx, "Gen")
     lines = [l for l in open(cp).read().splitlines() if (lambda c: c["route"] == 0 and len(c["knots"]) >= c["p"] + 2 and c["p"] >= 1 and pick(c, 12 if quick else 3))(json.loads(l))]
